@@ -182,22 +182,29 @@ def gen_jobs_case(rng, thorough):
 
 def gen_caller(rng, kind):
     """the real GridSearch.fit / Sensitivity.run on cores processes, steered like a jobs case"""
-    cores = rng.choice([2, 3, 3, 3, 4, 4])
+    cores = rng.choice([2, 3, 3, 4, 4, 4])
     nw = cores - 1
     if kind == "grid_fit":
         n, grid = rng.choice([(2, ["a"]), (3, ["a"]), (4, ["a"]), (2, ["a", "b"]), (3, ["b", "a"])])
         total = n ** len(grid)
     else:
-        n, grid = rng.choice([2, 3, 4, 5]), None
+        n, grid = rng.choice([2, 3, 4, 4, 5, 6]), None
         total = n
     fail = sorted(rng.sample(range(total), rng.choice([1, 1, 2]))) if rng.random() < 0.4 else []
     extra = rng.choice([0, 1, nw])
-    if rng.random() < 0.5:               # crossed: the later worker takes the earlier job, so results arrive out of job order
-        takes = [nw - 1 - (i % nw) for i in range(total + extra)]
+    style = rng.random()
+    if style < 0.35:
+        # descending: worker nw-1 takes job 0, ..., worker 0 takes job nw-1 and every later job; a main loop that looks
+        # late then collects nw-1, nw, ..., nw-2, ..., 0 -- a descending run with higher numbers already stored
+        takes = [nw - 1 - i if i < nw else 0 for i in range(total + extra)]
+        sched = interleave_polls(rng, [["T", w] for w in takes], nw, "late-main")
     else:
-        takes = [rng.randrange(nw) for _ in range(total + extra)]
-    # jobs leave the shared queue in job order; results only arrive out of order when the main loop looks late
-    sched = interleave_polls(rng, [["T", w] for w in takes], nw, rng.choice(["late-main", "late-main", "eager-main", "mixed"]))
+        if style < 0.65:                 # crossed: the later worker takes the earlier job
+            takes = [nw - 1 - (i % nw) for i in range(total + extra)]
+        else:
+            takes = [rng.randrange(nw) for _ in range(total + extra)]
+        # jobs leave the shared queue in job order; results only arrive out of order when the main loop looks late
+        sched = interleave_polls(rng, [["T", w] for w in takes], nw, rng.choice(["late-main", "late-main", "eager-main", "mixed"]))
     c = {"kind": kind, "n": n, "cores": cores, "fail": fail, "sched": sched}
     if grid:
         c["grid"] = grid
@@ -246,6 +253,10 @@ FIXED_CASES = [
     {"kind": "grid_fit", "n": 3, "grid": ["a"], "cores": 3, "fail": [1], "sched": [["T", 1], ["T", 0], ["P"], ["T", 1], ["P"], ["P"], ["P"]],
      "pin": "grid-parallel-failing-cell"},
     {"kind": "sens_fit", "n": 3, "cores": 3, "fail": [2], "sched": [["T", 1], ["T", 0], ["P"], ["T", 1], ["P"], ["P"], ["P"]]},
+    # 3 workers, the main loop looks late: results arrive as jobs 2, 3, 1, 0 (a descending triple)
+    {"kind": "sens_fit", "n": 4, "cores": 4, "fail": [], "sched": [["T", 2], ["T", 1], ["T", 0], ["T", 0], ["P"]]},
+    {"kind": "grid_fit", "n": 4, "grid": ["a"], "cores": 4, "fail": [], "sched": [["T", 2], ["T", 1], ["T", 0], ["T", 0], ["P"]]},
+    {"kind": "jobs", "cores": 4, "jobs": [[1, 0], [2, 0], [3, 0], [4, 0]], "sched": [["T", 2], ["T", 1], ["T", 0], ["T", 0], ["P"]]},
     # two SneakierPools constructed before the first is used
     {"kind": "sneakier", "procs": 2, "order": "constructed-first", "pools": [{"mul": 3, "xs": [1, 2, 3]}, {"mul": 100, "xs": [1, 2]}]},
     {"kind": "smap_free", "procs": 3, "batches": [{"jobs": [[5, 0, 3], [6, 0, 0], [7, 0, 1], [8, 0, 0]], "big": True}]},
@@ -651,17 +662,27 @@ def run(ctx):
         rp = json.load(open(ctx.replay))
         if rp.get("case"):
             cases = [rp["case"]]
-    nsh = min(common.NCPU, 14, max(1, len(cases) // 4))
+    nsh = min(common.NCPU, 16, max(1, len(cases) // 4))
     parts = shards(cases, nsh)
-    outs = common.run_impl_parallel("c14_impl", [{"cases": [cases[i] for i in p]} for p in parts], timeout=1500, workers=len(parts))
+    # bounded time: every driver has a budget for all its cases together (per-case limits inside); a driver that does not
+    # come back by itself is killed BUDGET + 60 s after its start and its cases are reported as not completed
+    budget = 600 if ctx.tier == "thorough" else 180
+    outs = common.run_impl_parallel("c14_impl", [{"cases": [cases[i] for i in p], "budget": budget} for p in parts],
+                                    timeout=budget + 60, workers=len(parts))
     ctx.notes['t_impl'] = round(_t.time() - _t0, 1)
     results = [None] * len(cases)
     for p, o in zip(parts, outs):
         if "__error__" in o:
-            ctx.obligation("impl-driver", "harness", False, o["__error__"][-800:])
-            return
+            ctx.obligation("impl-driver", "harness", False, "a driver did not return within its budget: " + o["__error__"][-600:])
+            for i in p:
+                results[i] = {"exc": "NotRun", "msg": "driver killed"}
+            continue
         for i, r in zip(p, o["results"]):
             results[i] = r
+    notrun = [i for i, r in enumerate(results) if r is None or r.get("exc") == "NotRun"]
+    if notrun:
+        ctx.obligation("impl-driver:budget", "harness", False,
+                       "%d cases were not run because an earlier case used up the time budget of its driver" % len(notrun))
     coq_cases, coq_idx = [], []
     fails = {}
     for i, (c, r) in enumerate(zip(cases, results)):
@@ -676,6 +697,9 @@ def run(ctx):
             for b in c["batches"]:
                 ctx.hist("batch_size", len(b["jobs"]))
                 ctx.hist("failing_jobs", sum(1 for j in b["jobs"] if j[1] == 1))
+        if r is None or r.get("exc") == "NotRun":
+            fails[i] = True
+            continue
         if "exc" in r:
             ctx.oracle["failures"] += 1
             # a free-running run_jobs call that never returns is the start-up race of Process.run (known finding);
